@@ -29,7 +29,7 @@ func (c20) Meta() Meta {
 	return Meta{
 		Level:       "exploration",
 		Rule:        "reference-model monitor: seeded files of call-heavy expressions (0..3 fixed parameters with/without variadic, namespaced and unknown functions, nesting up to 3, arguments that are strings containing commas and parentheses, templates, lists, objects, trailing commas, argument counts below / at / above the arity); each file is placed in TWO paths of one Decoder whose function sets declare the same names with different signatures, and the paths are asked alternately cursor by cursor; for EVERY cursor of each well-formed file SignatureAtPos is compared (per path, with that path's signatures) with M-sig, computed from the parser's call tree and the lexer's comma tokens: a signature iff the cursor is strictly inside the parentheses of a known call (or on a known parameterless call), that of the innermost such call, parameters = fixed + variadic, active parameter = commas of that call to the left of the cursor clamped to the variadic one, none with surplus arguments and no variadic. On byte prefixes of those files (half-typed calls) only soundness is checked: named function known, parameter list right, active index valid. distinct non-trivial = (function shape, argument slot, nesting depth, cursor class) of cursor cases where a signature is expected.",
-		Assumptions: []string{"don't-care: an inner call with surplus arguments nested in a valid outer call (text says none, returning the outer one is accepted)", "the cursor class 'directly before the opening parenthesis' is decided as 'not inside'"},
+		Assumptions: []string{"the cursor class 'directly before the opening parenthesis' is decided as 'not inside'"},
 		Floor:       map[string]int{"quick": 60, "thorough": 150},
 		CaseBudget:  60,
 	}
@@ -397,6 +397,10 @@ func (p c20) checkFile(unit int, fseed int64, src string, exact bool, only int, 
 			}
 			if sig != nil && strings.HasPrefix(sig.Name, inner.node.Name+"(") && !sameNameOuter {
 				viol("SIG surplus-arguments", fmt.Sprintf("signature of %s returned although %d arguments precede the cursor and it takes %d", inner.node.Name, commasLeft, len(params)), "no signature")
+			} else if sig != nil {
+				// the innermost call has more arguments than parameters: none is returned - not
+				// the signature of a call further out either
+				viol("SIG surplus-arguments outer-call-returned", fmt.Sprintf("signature of %s returned although the innermost enclosing call %s has %d arguments before the cursor and takes %d", sig.Name, inner.node.Name, commasLeft, len(params)), "no signature")
 			}
 			return
 		}
